@@ -84,7 +84,7 @@ GLOBAL = {"get_linear_NCPR": "get_NCPR", "get_linear_FCR": "get_FCR", "get_linea
 
 
 def rows_of(val):
-    if isinstance(val, tuple) and len(val) == 2 and val[0] == "__vstack__":
+    if isinstance(val, tuple) and len(val) == 2 and isinstance(val[0], str) and val[0] == "__vstack__":
         return val[1]
     import numpy as np
     if isinstance(val, np.ndarray) and val.ndim == 2:
